@@ -1,0 +1,80 @@
+//go:build verif
+
+// Contracts for package clientpb, checked by /verif/govc (comment-only file).
+package clientpb
+
+// A command is a duplicate when its sequence number is at or below what has been marked
+// proposed for its client.
+//@ pure func isdupc(c *CommandCache, cmd *Command) bool = c.clientSeqNumbers[cmd.ClientID] >= cmd.SequenceNumber
+// Number of fresh (non-duplicate) commands among the first n of cs.
+//@ pure func fcount(c *CommandCache, cs []*Command, n int) int = n <= 0 ? 0 : fcount(c, cs, n - 1) + (isdupc(c, cs[n - 1]) ? 0 : 1) decreases n
+//@ pred cnonnil(cs []*Command) = forall i int :: {cs[i]} 0 <= i && i < len(cs) ==> cs[i] != nil
+
+//@ func (*CommandCache).isDuplicate property C15
+//@   requires cmd != nil
+//@   ensures [def] result == isdupc(c, cmd)
+
+//@ func (*CommandCache).hasFullBatch property C15
+//@   ensures [def] result == (wrapu32(len(c.cache)) >= c.batchSize)
+
+//@ func (*Batch).isFull property C15
+//@   ensures [def] result == (wrapu32(len(b.Commands)) == batchSize)
+
+// fcount is monotone and bounded by n.
+//@ lemma fcount_bounds(c *CommandCache, cs []*Command, n int) property C15
+//@   ensures 0 <= fcount(c, cs, n) && fcount(c, cs, n) <= (n < 0 ? 0 : n)
+//@   decreases n < 0 ? 0 : n
+//@   proof if n > 0 { use fcount_bounds(c, cs, n - 1) }
+
+//@ lemma fcount_mono(c *CommandCache, cs []*Command, m int, n int) property C15
+//@   requires 0 <= m && m < n && !isdupc(c, cs[m])
+//@   ensures fcount(c, cs, m) < fcount(c, cs, n)
+//@   decreases n
+//@   trigger fcount(c, cs, m), fcount(c, cs, n)
+//@   proof if m < n - 1 { use fcount_mono(c, cs, m, n - 1) }
+
+// tryExtractBatch: a non-nil result is a full batch holding exactly the fresh commands of the
+// consumed prefix of the cache, in cache order (position = number of fresh commands before
+// it); the consumed prefix ends right after the command that completed the batch; nothing is
+// returned that is marked proposed; a nil result leaves the cache untouched.
+//@ func (*CommandCache).tryExtractBatch property C15
+//@   requires c.batchSize >= 1 && cnonnil(c.cache)
+//@   ensures [full] result != nil ==> len(result.Commands) == c.batchSize
+//@   ensures [consumed-len] result != nil ==> len(c.cache) <= old(len(c.cache))
+//@   ensures [consumed-count] result != nil ==> fcount(c, old(c.cache), old(len(c.cache)) - len(c.cache)) == c.batchSize
+//@   ensures [consumed-rest] result != nil ==> (forall j int :: {old(c.cache[j])} old(len(c.cache)) - len(c.cache) <= j && j < old(len(c.cache)) ==> c.cache[j - (old(len(c.cache)) - len(c.cache))] == old(c.cache[j]))
+//@   ensures [fifo-fresh] result != nil ==> forall m int :: {old(c.cache[m])} 0 <= m && m < old(len(c.cache)) - len(c.cache) && !isdupc(c, old(c.cache[m])) ==> result.Commands[fcount(c, old(c.cache), m)] == old(c.cache[m])
+//@   ensures [none-proposed] result != nil ==> forall i int :: {result.Commands[i]} 0 <= i && i < len(result.Commands) ==> result.Commands[i] != nil && !isdupc(c, result.Commands[i])
+//@   ensures [nil-unchanged] result == nil ==> len(c.cache) == old(len(c.cache)) && samearr(c.cache, old(c.cache))
+//@   loop 0 invariant [content] samearr(c.cache, old(c.cache)) && len(c.cache) == old(len(c.cache)) && (forall j int :: {c.cache[j]} 0 <= j && j < len(c.cache) ==> c.cache[j] == old(c.cache[j]))
+//@   loop 0 invariant [idx] 0 <= extracted && extracted <= len(c.cache)
+//@   loop 0 invariant [count] len(batch.Commands) == fcount(c, c.cache, extracted) && len(batch.Commands) <= c.batchSize
+//@   loop 0 invariant [sep] cap(batch.Commands) > 0 ==> disjoint(batch.Commands, c.cache) && fresh(batch.Commands)
+//@   loop 0 invariant [below] forall m int :: {c.cache[m]} 0 <= m && m < extracted && !isdupc(c, c.cache[m]) ==> 0 <= fcount(c, c.cache, m) && fcount(c, c.cache, m) < len(batch.Commands)
+//@   loop 0 invariant [filter] forall m int :: {c.cache[m]} 0 <= m && m < extracted && !isdupc(c, c.cache[m]) ==> batch.Commands[fcount(c, c.cache, m)] == c.cache[m]
+//@   loop 0 invariant [fresh] forall i int :: {batch.Commands[i]} 0 <= i && i < len(batch.Commands) ==> batch.Commands[i] != nil && !isdupc(c, batch.Commands[i])
+//@   use loop 0 head :: fcount_bounds(c, c.cache, extracted)
+//@   uses fcount_mono
+//@   modifies c.cache, alloc
+
+// "Every accepted command is handed out at most once" needs the cache to hold each
+// (client, sequence number) at most once.
+//@ pred cuniq(cs []*Command) = forall i int, j int :: {cs[i], cs[j]} 0 <= i && i < j && j < len(cs) ==> !(cs[i].ClientID == cs[j].ClientID && cs[i].SequenceNumber == cs[j].SequenceNumber)
+
+//@ func (*CommandCache).Add property C15
+//@   requires cmd != nil && cnonnil(c.cache) && cuniq(c.cache)
+//@   ensures [unique] cuniq(c.cache)
+//@   ensures [dup-ignored] old(isdupc(c, cmd)) ==> len(c.cache) == old(len(c.cache)) && samearr(c.cache, old(c.cache))
+//@   ensures [appended] !old(isdupc(c, cmd)) ==> len(c.cache) == old(len(c.cache)) + 1 && c.cache[old(len(c.cache))] == cmd && (forall j int :: {c.cache[j]} 0 <= j && j < old(len(c.cache)) ==> c.cache[j] == old(c.cache[j]))
+//@   ensures [nonnil] cnonnil(c.cache)
+//@   modifies c.cache, c.cache[*], alloc
+
+// Marks only move forward: the per-client proposed sequence number never decreases, and
+// afterwards every command of the batch is at or below its client's mark.
+//@ func (*CommandCache).Proposed property C15
+//@   requires c.clientSeqNumbers != nil && (batch != nil ==> cnonnil(batch.Commands))
+//@   ensures [monotone] forall id uint32 :: c.clientSeqNumbers[id] >= old(c.clientSeqNumbers[id])
+//@   ensures [marked] batch != nil ==> forall i int :: {batch.Commands[i]} 0 <= i && i < len(batch.Commands) ==> isdupc(c, batch.Commands[i])
+//@   loop 0 invariant [monotone] forall id uint32 :: c.clientSeqNumbers[id] >= old(c.clientSeqNumbers[id])
+//@   loop 0 invariant [marked] batch != nil ==> forall i int :: {batch.Commands[i]} 0 <= i && i <= rangeindex ==> isdupc(c, batch.Commands[i])
+//@   modifies c.clientSeqNumbers[*]
